@@ -22,37 +22,45 @@ import (
 )
 
 type RunResult struct {
-	Harness     string               `json:"harness"`
-	Property    string               `json:"property"`
-	Tier        string               `json:"tier"`
-	Doc         string               `json:"doc"`
-	Solver      string               `json:"solver"`
-	LIA         bool                 `json:"lia"`
-	Paths       int                  `json:"paths"`
-	PathsDone   int                  `json:"paths_done"`
-	Infeasible  int                  `json:"infeasible"`
-	Steps       int64                `json:"steps"`
-	Queries     int                  `json:"queries"`
-	Sat         int                  `json:"sat"`
-	Unsat       int                  `json:"unsat"`
-	Unknown     int                  `json:"unknown"`
-	SolverSec   float64              `json:"solver_s"`
-	MaxQuerySec float64              `json:"max_query_s"`
-	LoadSec     float64              `json:"load_s"`
-	WallSec     float64              `json:"wall_s"`
-	Obligations int                  `json:"obligations"`
-	Discharged  int                  `json:"discharged"`
-	CheckSites  map[string]int       `json:"check_sites"`
-	Violations  []interp.Violation   `json:"violations"`
-	Witnesses   []*interp.Witness    `json:"witnesses"`
-	Inconcl     []string             `json:"inconclusive"`
-	Functions   map[string]int       `json:"functions"`
-	Intrinsics  map[string]int       `json:"intrinsics"`
-	Bounds      map[string]int64     `json:"bounds"`
-	Samples     []string             `json:"sample_queries"`
-	SolverErrs  []string             `json:"solver_errors"`
-	Cross       map[string]CrossStat `json:"cross_check,omitempty"`
+	Harness     string                `json:"harness"`
+	Property    string                `json:"property"`
+	Tier        string                `json:"tier"`
+	Doc         string                `json:"doc"`
+	Solver      string                `json:"solver"`
+	LIA         bool                  `json:"lia"`
+	Paths       int                   `json:"paths"`
+	PathsDone   int                   `json:"paths_done"`
+	Infeasible  int                   `json:"infeasible"`
+	Steps       int64                 `json:"steps"`
+	Queries     int                   `json:"queries"`
+	Sat         int                   `json:"sat"`
+	Unsat       int                   `json:"unsat"`
+	Unknown     int                   `json:"unknown"`
+	SolverSec   float64               `json:"solver_s"`
+	MaxQuerySec float64               `json:"max_query_s"`
+	LoadSec     float64               `json:"load_s"`
+	WallSec     float64               `json:"wall_s"`
+	Obligations int                   `json:"obligations"`
+	Discharged  int                   `json:"discharged"`
+	CheckSites  map[string]int        `json:"check_sites"`
+	Violations  []interp.Violation    `json:"violations"`
+	Witnesses   []*interp.Witness     `json:"witnesses"`
+	Inconcl     []string              `json:"inconclusive"`
+	Functions   map[string]int        `json:"functions"`
+	Intrinsics  map[string]int        `json:"intrinsics"`
+	Bounds      map[string]int64      `json:"bounds"`
+	Samples     []string              `json:"sample_queries"`
+	SolverErrs  []string              `json:"solver_errors"`
+	Cross       map[string]CrossStat  `json:"cross_check,omitempty"`
 	PerSolver   map[string]SolverStat `json:"per_solver,omitempty"`
+	Race        *RaceStat             `json:"race_monitor,omitempty"`
+}
+
+// RaceStat reports what the happens-before monitor (race=on) observed.
+type RaceStat struct {
+	Accesses int64 `json:"library_accesses_checked"`
+	Skipped  int64 `json:"harness_accesses_skipped"`
+	Syncs    int64 `json:"release_operations"`
 }
 
 type SolverStat struct {
@@ -235,6 +243,8 @@ func runHarness(harness, pkgdir, tier, solverName string, timeoutMs int, trace b
 	}
 	ex := interp.NewExplorer(s, harness, lim)
 	ex.PoolAny = hi.Opts["pool"] == "any"
+	interp.RaceOn = hi.Opts["race"] == "on"
+	interp.RaceAll = os.Getenv("GOSMT_RACE_ALL") == "1"
 	ex.NoPoolHavoc = hi.Opts["pool"] == "nohavoc"
 	ex.MapOrderChoice = hi.Opts["maporder"] == "all"
 	if hi.Opts["sched"] == "explore" {
@@ -302,6 +312,9 @@ func runHarness(harness, pkgdir, tier, solverName string, timeoutMs int, trace b
 	res.Inconcl = append(res.Inconcl, ex.Inconcl...)
 	res.Functions = ex.FnsEncoded
 	res.Intrinsics = ex.Intrinsics
+	if interp.RaceOn {
+		res.Race = &RaceStat{interp.RaceStats.Accesses, interp.RaceStats.Skipped, interp.RaceStats.Syncs}
+	}
 	res.Bounds = interp.Bounds
 	res.Samples = ex.SampleQueries
 	res.SolverErrs = s.Errors()
